@@ -310,3 +310,57 @@ def enum_beam_graded(tier):
 
 SUBS.append(Sub("beam_graded", check_beam, enum=enum_beam_graded,
                 doc="dimension x SEG2..SEG5 x Euler-Bernoulli / Timoshenko x grading x direction (on the x axis both ways, inclined): constant strain / curvature / twist fields"))
+
+
+# ------------------------------------------------------------------------------------------
+# (added by the lead, round 8) the patch test on LARGE systems (more than 40 000 unknowns after elimination): whatever route the
+# solver takes for such a size, the linear field comes back at round-off, not at the tolerance of an iterative method
+
+
+def enum_large_patch(tier):
+    yield dict(problem="elastic", n=153)  # 151**2 interior nodes x 2 = 45 602 unknowns
+    yield dict(problem="thermal", n=204)  # 202**2 = 40 804 unknowns
+    if tier == "thorough":
+        yield dict(problem="elastic", n=260)
+
+
+def check_large_patch(case, rec):
+    from EasyFEA import Mesh
+    from EasyFEA.FEM._group_elem import GroupElemFactory
+
+    n = case["n"]
+    xs = np.linspace(0.0, 1.0, n)
+    X, Y = np.meshgrid(xs, xs, indexing="ij")
+    A = np.array([[1.0, 0.3], [-0.2, 0.8]])
+    P = np.column_stack([X.ravel(), Y.ravel()]) @ A.T + np.array([0.5, -0.25])
+    coord = np.column_stack([P, np.zeros(n * n)])
+    idx = np.arange(n * n).reshape(n, n)
+    conn = np.column_stack([idx[:-1, :-1].ravel(), idx[1:, :-1].ravel(), idx[1:, 1:].ravel(), idx[:-1, 1:].ravel()])
+    mesh = Mesh({"QUAD4": GroupElemFactory.Create("QUAD4", conn, coord)})
+    bnd = np.unique(np.concatenate([idx[0, :], idx[-1, :], idx[:, 0], idx[:, -1]]))
+    sig = dict(problem=case["problem"], n=n)
+    if case["problem"] == "elastic":
+        simu = Simulations.Elastic(mesh, Models.Elastic.Isotropic(2, E=3.0, v=0.25, planeStress=True))
+        G = np.array([[0.02, -0.01], [0.015, 0.03]])
+        c = np.array([0.1, -0.2])
+        uex = P @ G.T + c
+        simu.add_dirichlet(bnd, [uex[bnd, 0].copy(), uex[bnd, 1].copy()], ["x", "y"])
+        u = np.asarray(simu.Solve(), float).reshape(-1, 2)
+        nunk = 2 * (n * n - bnd.size)
+        eps = np.array([G[0, 0], G[1, 1], 0.5 * (G[0, 1] + G[1, 0])])
+        E = np.asarray(simu.Result("Strain", nodeValues=False), float)
+        rec.close(E - eps[None, :], float(np.abs(G).max()), 1e-7, "large_strain", f"strain of a {nunk}-unknown patch test", **sig)
+    else:
+        simu = Simulations.Thermal(mesh, Models.Thermal(k=1.5, c=1.0))
+        g = np.array([0.4, -0.7])
+        uex = (P @ g + 0.3)[:, None]
+        simu.add_dirichlet(bnd, [uex[bnd, 0].copy()], ["t"])
+        u = np.asarray(simu.Solve(), float).reshape(-1, 1)
+        nunk = n * n - bnd.size
+    rec.label(f"large:{case['problem']}:unknowns={nunk}")
+    rec.close(u - uex, float(np.abs(uex).max()), TOL_SOLVE, "large_displacement",
+              f"{case['problem']} patch test with {nunk} unknowns: the solved field differs from the linear field", **sig)
+    rec.nontrivial(nunk > 40000)
+
+
+SUBS.append(Sub("large_patch", check_large_patch, enum=enum_large_patch, doc="elastic (45 602 unknowns) and thermal (40 804 unknowns) patch tests on a sheared QUAD4 grid"))
